@@ -1099,6 +1099,9 @@ def rule_ex15(A: Analysis, rep, F: ExecFacts):
     # mutators of the pool: only the pop (launch) and the append (wait)
     muts = []
     for fq, sites in A.cg.sites.items():
+        fo = A.prog.functions.get(fq)
+        if fo is not None and fo.inlined:
+            continue     # its statements are counted where it was inlined
         for (c, _e) in sites:
             if isinstance(c.func, ast.Attribute) and norm(c.func.value) == "self._available_slots":
                 muts.append((fq.rsplit(".", 1)[1], c.func.attr))
